@@ -12,6 +12,23 @@ def FilterOk (f : Filter) : Prop := ∀ n m m', f n m = some m' → m'.oid = m.o
 
 def oids (l : List Msg) : List Oid := l.map (·.oid)
 
+/-- the label step works on the object it is given -/
+theorem labelFilter_ok : FilterOk labelFilter := by
+  intro n m m' h
+  simp only [labelFilter, Option.some.injEq] at h
+  subst h
+  left
+  split <;> rfl
+
+theorem chain_ok (s : Irc) (h : ∀ f ∈ s.cfg.filters, FilterOk f) : ∀ f ∈ s.chain, FilterOk f := by
+  intro f hf
+  unfold Irc.chain at hf
+  split at hf
+  · cases hf with
+    | head => exact labelFilter_ok
+    | tail _ hf => exact h f hf
+  · exact h f hf
+
 /-- `.int k` with `k ≥ n` does not occur -/
 def IntBelow (n : Nat) (l : List Oid) : Prop := ∀ k, Oid.int k ∈ l → k < n
 
@@ -87,13 +104,13 @@ theorem deliver_tag {s s1 : Irc} {m : Msg} {d : Delivery} (hp : PreInv s m)
   split at h
   · rename_i n hr
     injection h with h1 h2; subst h1 h2
-    have hmono := runFilters_mono s.cfg.filters s.nextOid m
+    have hmono := runFilters_mono s.chain s.nextOid m
     rw [hr] at hmono
     refine ⟨(by intro o h; cases h), ⟨fun o ho => hp.untagged o (hpend o ho), ?_, ?_, hp.echoedInt, hp.filters⟩⟩
     · intro k hk; exact Nat.lt_of_lt_of_le (hp.intPending k (hpend _ hk)) hmono
     · intro k hk; exact Nat.lt_of_lt_of_le (hp.intEchoed k hk) hmono
   · rename_i out n hr
-    obtain ⟨hmono, hoid⟩ := runFilters_oid s.cfg.filters s.nextOid m out n hp.filters hr
+    obtain ⟨hmono, hoid⟩ := runFilters_oid s.chain s.nextOid m out n (chain_ok s hp.filters) hr
     have hnot : out.oid ∉ s.echoed := by
       rcases hoid with h1 | ⟨k, h1, h2, _⟩
       · rw [h1]; exact hp.untagged _ (by rw [oids_cons]; exact mem_cons_self)
@@ -270,7 +287,7 @@ theorem sendConnect_tag (cs : List Content) : ∀ (s : Irc), TagStep s (sendConn
 /-- the state `reset()` builds before `_queueConnectMessages` -/
 def cleared (s : Irc) : Irc :=
   { s with lastTake := 0, afterConnect := false, lastPing := s.now, outstandingPing := false,
-           echoAcked := false, queue := Queue.empty, fast := [] }
+           echoAcked := false, labelAcked := false, queue := Queue.empty, fast := [] }
 
 theorem reset_tag (s : Irc) : TagStep s (reset s) := by
   intro hi
@@ -438,6 +455,7 @@ theorem run_tag : ∀ (ops : List Op) (s : Irc), TagInv s → OpsExt ops → ∀
       | connected => exact ⟨hi.of_sub (fun _ h => h) rfl (Nat.le_refl _) rfl, ho, by intro e h; cases h⟩
       | pong => exact ⟨hi.of_sub (fun _ h => h) rfl (Nat.le_refl _) rfl, ho, by intro e h; cases h⟩
       | capEcho b => exact ⟨hi.of_sub (fun _ h => h) rfl (Nat.le_refl _) rfl, ho, by intro e h; cases h⟩
+      | capLabel b => exact ⟨hi.of_sub (fun _ h => h) rfl (Nat.le_refl _) rfl, ho, by intro e h; cases h⟩
       | config c =>
         refine ⟨⟨hi.untagged, hi.intPending, hi.intEchoed, hi.echoedInt, ho.1⟩, ho.2, ?_⟩
         intro e he
